@@ -33,14 +33,16 @@ type c20Step struct {
 }
 
 type c20Job struct {
-	Shell   string    `json:"shell"` // job defaults.run.shell
+	Shell   string    `json:"shell"`             // job defaults.run.shell
+	Workdir int       `json:"workdir,omitempty"` // defaults.run.working-directory: 0 none, 1 before shell, 2 after shell (alone when no shell)
 	Windows bool      `json:"windows"`
 	Steps   []c20Step `json:"steps"`
 }
 
 type c20File struct {
-	Shell string   `json:"shell"` // workflow defaults.run.shell
-	Jobs  []c20Job `json:"jobs"`
+	Shell   string   `json:"shell"` // workflow defaults.run.shell
+	Workdir int      `json:"workdir,omitempty"`
+	Jobs    []c20Job `json:"jobs"`
 }
 
 type c20Case struct {
@@ -117,10 +119,18 @@ func (c *c20Case) render() (files map[string]string, expects []c20Expect) {
 		f := &c.Files[fi]
 		y := &ybuf{}
 		y.ln("on: push")
-		if f.Shell != "" {
+		if f.Shell != "" || f.Workdir != 0 {
 			y.ln("defaults:")
 			y.ln("  run:")
-			y.ln("    shell: %s", f.Shell)
+			if f.Workdir == 1 {
+				y.ln("    working-directory: ./src")
+			}
+			if f.Shell != "" {
+				y.ln("    shell: %s", f.Shell)
+			}
+			if f.Workdir == 2 {
+				y.ln("    working-directory: ./src")
+			}
 		}
 		y.ln("jobs:")
 		name := fmt.Sprintf(".github/workflows/w%d.yml", fi)
@@ -132,10 +142,18 @@ func (c *c20Case) render() (files map[string]string, expects []c20Expect) {
 			} else {
 				y.ln("    runs-on: ubuntu-latest")
 			}
-			if j.Shell != "" {
+			if j.Shell != "" || j.Workdir != 0 {
 				y.ln("    defaults:")
 				y.ln("      run:")
-				y.ln("        shell: %s", j.Shell)
+				if j.Workdir == 1 {
+					y.ln("        working-directory: ./job")
+				}
+				if j.Shell != "" {
+					y.ln("        shell: %s", j.Shell)
+				}
+				if j.Workdir == 2 {
+					y.ln("        working-directory: ./job")
+				}
 			}
 			y.ln("    steps:")
 			if len(j.Steps) == 0 {
@@ -515,7 +533,7 @@ func TestC20(t *testing.T) {
 		t.Fatalf("fakecmd not built: %v", err)
 	}
 	hx.Main(t, "C20", func(r *hx.Run) {
-		r.Rule = fmt.Sprintf("worlds with 1-6 files x 1-4 jobs x 0-6 run steps; the effective shell is decided at step / job default / workflow default / runner label level (bash, sh, 'bash -e {0}', 'sh -e {0}', pwsh, python, 'python {0}', cmd, windows runner); scripts carry a unique marker and 0-4 ${{ }} placeholders (also unterminated). A stand-in tool (harness/fakecmd, passed as -shellcheck / -pyflakes) logs pid, marker and stdin, sleeps for a generated latency and follows a generated plan (ok / k issues / exit!=0 silent / SIGKILL / SIGKILL after output / empty output / garbage). Seeded delays are injected at the verif schedule points of concurrentProcess. The test process is pinned with taskset (NumCPU=%d here). Oracle: reference shell-resolution model => exactly one invocation per bash/sh resp. python script with the length-preserving sanitised script (plus prologue) on stdin; one diagnostic per printed issue at the run: key; a planned failure <=> fatal error; running tools <= NumCPU at every instant (schedule trace and tool log); all tools ended, collected and called back before LintFiles returns. Non-trivial = >= 2 overlapping tool runs, or a planned failure, or a script with a placeholder; distinct = case hash.", runtime.NumCPU())
+		r.Rule = fmt.Sprintf("worlds with 1-6 files x 1-4 jobs x 0-6 run steps; the effective shell is decided at step / job default / workflow default / runner label level, where a defaults.run section may also exist without a shell (bash, sh, 'bash -e {0}', 'sh -e {0}', pwsh, python, 'python {0}', cmd, windows runner); scripts carry a unique marker and 0-4 ${{ }} placeholders (also unterminated). A stand-in tool (harness/fakecmd, passed as -shellcheck / -pyflakes) logs pid, marker and stdin, sleeps for a generated latency and follows a generated plan (ok / k issues / exit!=0 silent / SIGKILL / SIGKILL after output / empty output / garbage). Seeded delays are injected at the verif schedule points of concurrentProcess. The test process is pinned with taskset (NumCPU=%d here). Oracle: reference shell-resolution model => exactly one invocation per bash/sh resp. python script with the length-preserving sanitised script (plus prologue) on stdin; one diagnostic per printed issue at the run: key; a planned failure <=> fatal error; running tools <= NumCPU at every instant (schedule trace and tool log); all tools ended, collected and called back before LintFiles returns. Non-trivial = >= 2 overlapping tool runs, or a planned failure, or a script with a placeholder; distinct = case hash.", runtime.NumCPU())
 		r.Assumptions = []string{"time is only used as order between events stamped on this host; no assertion depends on a duration", "not asserted: a tool that cannot be found at start-up (the default configuration deliberately disables the rule then)", "the 'finished before return' clause is asserted for runs without a fatal error"}
 		r.Extra["num_cpu"] = runtime.NumCPU()
 		shells := []string{"", "", "", "bash", "sh", "bash -e {0}", "sh -e {0}", "pwsh", "python", "python {0}", "cmd"}
@@ -531,9 +549,9 @@ func TestC20(t *testing.T) {
 			nf := rapid.IntRange(1, 6).Draw(rt, "nfiles")
 			id := 0
 			for fi := 0; fi < nf; fi++ {
-				f := c20File{Shell: rapid.SampledFrom(shells).Draw(rt, "wshell")}
+				f := c20File{Shell: rapid.SampledFrom(shells).Draw(rt, "wshell"), Workdir: rapid.SampledFrom([]int{0, 0, 1, 2}).Draw(rt, "wworkdir")}
 				for ji := 0; ji < rapid.IntRange(1, 4).Draw(rt, "njobs"); ji++ {
-					j := c20Job{Shell: rapid.SampledFrom(shells).Draw(rt, "jshell"), Windows: rapid.IntRange(0, 4).Draw(rt, "win") == 0}
+					j := c20Job{Shell: rapid.SampledFrom(shells).Draw(rt, "jshell"), Workdir: rapid.SampledFrom([]int{0, 0, 1, 2}).Draw(rt, "jworkdir"), Windows: rapid.IntRange(0, 4).Draw(rt, "win") == 0}
 					for si := 0; si < rapid.IntRange(0, 6).Draw(rt, "nsteps"); si++ {
 						s := c20Step{ID: fmt.Sprintf("s%d", id), Shell: rapid.SampledFrom(shells).Draw(rt, "sshell"), Plan: "ok"}
 						id++
